@@ -7,6 +7,7 @@ import Adb.Model.Scriptlet
 import Adb.Spec.Pattern
 import Adb.Spec.Options
 import Adb.Model.Wire
+import Adb.Model.Lists
 /-
   One-line-in / one-line-out driver.  Every answer has the form  `M=<model> S=<spec> D=<0|1>`:
   the output of the model that mirrors the code, the output of the reference semantics, and whether
@@ -37,6 +38,29 @@ def ans (m s : String) (d : Bool) : String := s!"M={m} S={s} D={if d then 1 else
 
 def isAsciiStr (s : Str) : Bool := s.all (fun c => c.val < 128)
 
+def showMeta (m : Lists.Meta) : String :=
+  let e := match m.expires with
+    | none => "-"
+    | some (.hours n) => s!"H{n}"
+    | some (.days n) => s!"D{n}"
+  ";".intercalate [optHex m.homepage, optHex m.title, e, optHex m.redirect]
+
+/-- canonical outcome of `parse_filter` (the cosmetic parser and IDNA are outside the model) -/
+def showPline (f t : String) (line : Str) : String :=
+  let fmt := if f == "H" then Lists.Format.hosts else Lists.Format.standard
+  let rt := match t with
+    | "N" => Lists.RuleTypes.networkOnly
+    | "C" => Lists.RuleTypes.cosmeticOnly
+    | _ => Lists.RuleTypes.all
+  let ascii := isAsciiStr line
+  match Lists.parseLine (C := Unit) (fun _ => .ok ()) (fun _ => none) { format := fmt, ruleTypes := rt } line with
+  | .ok (.network r) => if ascii then "N:" ++ showRule r else "NET"
+  | .ok (.cosmetic _) => "C"
+  | .error e =>
+    if e.startsWith "Network:" then (if ascii then "E:" ++ String.ofList (e.toList.drop 8) else "NET")
+    else if e.startsWith "Cosmetic:" then "C"
+    else "X:" ++ e
+
 def step (line : String) : String :=
   match line.splitOn "\t" with
   | ["hash", h] => match unhex h with
@@ -49,6 +73,16 @@ def step (line : String) : String :=
       ans (optHex (Removeparam.rewrittenUrl important url names))
           (optHex (Removeparam.spec important url names)) true
     | _, _ => "bad-op"
+  -- C11: one list line through `parse_filter`
+  | ["pline", f, t, l] => match unhex l with
+      | some line => let o := showPline f t line; ans o o true
+      | none => "bad-op"
+  | ["meta", t] => match unhex t with
+      | some s => let o := showMeta (Lists.readListMetadata s); ans o o true
+      | none => "bad-op"
+  | ["lmeta", t] => match unhex t with
+      | some s => let o := showMeta (Lists.listMeta (Lists.lines s)); ans o o true
+      | none => "bad-op"
   -- a network rule from its text
   | ["parse", l] => match unhex l with
       | some line =>
